@@ -4986,8 +4986,27 @@ func updateMeshTopology(tx WriteTxn, idx uint64, node string, svc *structs.NodeS
 
 	for u := range oldUpstreams {
 		if !inserted[u] {
-			if _, err := tx.DeleteAll(tableMeshTopology, indexID, u, downstream); err != nil {
-				return fmt.Errorf("failed to truncate %s table: %v", tableMeshTopology, err)
+			// This instance no longer has the upstream: drop its reference, and the mapping
+			// itself only once no other instance references it (see cleanupMeshTopology).
+			obj, err := tx.First(tableMeshTopology, indexID, u, downstream)
+			if err != nil {
+				return fmt.Errorf("%q lookup failed: %v", tableMeshTopology, err)
+			}
+			stale, ok := obj.(*upstreamDownstream)
+			if !ok {
+				continue
+			}
+			mapping := stale.DeepCopy()
+			delete(mapping.Refs, structs.UniqueID(node, svc.CompoundServiceID().String()))
+			if len(mapping.Refs) == 0 {
+				if err := tx.Delete(tableMeshTopology, stale); err != nil {
+					return fmt.Errorf("failed to truncate %s table: %v", tableMeshTopology, err)
+				}
+			} else {
+				mapping.ModifyIndex = idx
+				if err := tx.Insert(tableMeshTopology, mapping); err != nil {
+					return fmt.Errorf("failed inserting %s mapping: %s", tableMeshTopology, err)
+				}
 			}
 			if err := indexUpdateMaxTxn(tx, idx, tableMeshTopology); err != nil {
 				return fmt.Errorf("failed updating %s index: %v", tableMeshTopology, err)
